@@ -65,6 +65,22 @@ class Ctx:
         self.analysed[name] = self.analysed.get(name, 0) + n
 
 
+def reuse(ctx: "Ctx", run_fn, keep, rename: str, note: str):
+    """Run another property's rule function on the same repository and re-emit
+    the findings whose rule name starts with one of *keep* under *rename* (the
+    same structural fact is a necessary condition of both properties)."""
+    sub = Ctx(ctx.prop, ctx.tier, ctx.repo)
+    run_fn(sub)
+    n = 0
+    for f in sub.findings:
+        if any(f.rule.startswith(k) for k in keep):
+            n += 1
+            new_rule = f"{rename}.{f.rule.split('.', 1)[1]}"
+            ctx._add(f.verdict, new_rule, f.construct, f.loc, f"{f.detail} [{note}]", disc=f.key.split(" | ", 2)[2] if f.key.count(" | ") >= 2 else "", trivial=f.trivial)
+    ctx.count(f"reused_from_{rename}", n)
+    return n
+
+
 def load_known() -> list:
     if not os.path.exists(KNOWN_FILE):
         return []
